@@ -69,6 +69,9 @@ class Check(HCheck):
         la, lb, lc = A + L.long_stem(75, b"a"), A + L.long_stem(75, b"b"), A + L.long_stem(149, b"c")
         life = [al.page(la), al.page(lb, True), al.page(lc), al.links((lb, la)), al.OBS, al.clear("never", {}), al.REOPEN]
         sp.append(Space(Cfg("never"), life, 5 if thorough else 4, name="lifecycle/long", dedup=False))
+        # very long stems (tails of 9, 29 and 54 blocks): reading in runs, caps on tail length
+        vl = [A + L.long_stem(n, f) for n, f in ((700, b"a"), (2200, b"a"), (2200, b"b"), (4000, b"c"))]
+        sp.append(Space(Cfg("never"), [al.page(u, i % 2 == 0) for i, u in enumerate(vl)] + [al.page(vl[0] + b"p:k|"), al.create(vl[1]), al.REOPEN], 4 if thorough else 3, name="long/very-long"))
         shapes = al.shape_lrus(3)
         prep = [al.R0, (al.page(A + L.long_stem(75, b"a")),), (al.page(A + L.long_stem(149, b"a") + b"p:k|"),)]
         sp.append(Space(Cfg("never"), [al.page(u, i % 2 == 0) for i, u in enumerate(shapes)], 1, roots=prep, name="shapes/one-insertion"))
